@@ -27,8 +27,37 @@ def toU (xs : List Nat) : List U := xs.map (fun x => x.toUInt64)
 def showView (tag : String) (v : View) : String :=
   s!"{tag}{v.start}+{v.stop - v.start}[{showList (shapeOf v.dims)}]"
 
+/-- `i5`, `-2:3`, `1:_`; `none` for a range with step -1 (`n…`, always a `SliceError`). -/
+def parseSItem (w : String) : Option (Option SItem) :=
+  if w.startsWith "n" then some none
+  else if w.startsWith "i" then (w.drop 1).toString.toInt?.map (fun i => some (.index i))
+  else
+    match w.splitOn ":" with
+    | [a, b] =>
+      match a.toInt? with
+      | none => none
+      | some s =>
+        if b == "_" then some (some (.range s none))
+        else b.toInt?.map (fun e => some (.range s (some e)))
+    | _ => none
+
+/-- The `r:` probe: `try_slice` / `try_slice_mut`. -/
+def sliceProbe (dn : List (Nat × Nat)) (storageLen : Nat) (arg : String) : String :=
+  let ws := if arg == "-" then [] else arg.splitOn "/"
+  match ws.mapM parseSItem with
+  | none => "bad-probe"
+  | some its =>
+    match its.mapM id with
+    | none => "err"
+    | some items =>
+      match trySlice true dn storageLen items with
+      | .error e => e.toString
+      | .ok v =>
+        s!"V{v.start}+{v.stop - v.start}[{showList (shapeOf v.dims)}]st[{showList (v.dims.map (fun d => d.2))}]len={len v.dims}"
+
 /-- One probe on an accepted tensor `dims` (machine values) with `storageLen` elements. -/
 def probe (ovf nd : Bool) (dims : List (U × U)) (storageLen : Nat) (p : String) : String :=
+  if p.startsWith "r:" then sliceProbe (M.toN dims) storageLen (p.drop 2).toString else
   let (kind, arg) :=
     match p.splitOn ":" with
     | [k, a] => (k, a)
